@@ -172,8 +172,44 @@ def last_depth_profile(rng, alts):
 
 
 def generate(tier, seed):
+    cases = _generate(tier, seed)
+    rng = random.Random(1000003 * seed + 1414)
+    out = []
+    for c in cases:
+        if c["op"] == "c14.both" and not c["tags"].get("exh"):
+            ip, tags = c06.exotic_payload(rng, c["payload"])
+            if tags:
+                c = case("c14.both", ip, **dict(c["tags"], exotic="+".join(tags)))
+        out.append(c)
+    return out
+
+
+def big_half_profile(rng, dt, alts):
+    """even n beyond 2**53: one first choice has exactly n/2, or n/2 + 1, of the voters"""
+    B = rng.choice([2 ** 53, 2 ** 53 + 1, 2 ** 63, 2 ** 64 + 1, 10 ** 30 + 7])
+    base = rand_perm(rng, alts)
+    top = base[0]
+    extra = rng.choice([0, 0, 1, 2])
+    prof = []
+    for k in rng.choice([[B + extra], [B, extra] if extra else [B - 1, 1], [1, B - 1 + extra]]):
+        if k > 0:
+            prof.append((strictb([top] + rand_perm(rng, base[1:]), dt, rng, 0.3), k))
+    for k in rng.choice([[B], [B - 1, 1], [1, 1, B - 2]]):
+        p = rand_perm(rng, base[1:]) + [top]
+        prof.append(([[a] for a in (p if dt == 0 else p[: rng.randint(1, len(p))])], k))
+    rng.shuffle(prof)
+    return prof
+
+
+def _generate(tier, seed):
     rng = random.Random(1000003 * seed + 14)
     out = gen_exhaustive(tier)
+    n = 300 if tier == "quick" else 3000
+    for i in range(n):
+        m = rng.randint(2, 5)
+        alts = rng.sample([0, 1, 2, 3, 4, 5, 6, 10 ** 18, 2 ** 64 + 1], m)
+        dt = rng.choice([0, 1])
+        out.append(both_case(dt, alts, big_half_profile(rng, dt, alts), gen="big-exact-half"))
     n = 600 if tier == "quick" else 8000
     for i in range(n):
         m = rng.choice([1, 2, 2, 3, 3, 4, 5, 6, 8])
@@ -272,12 +308,21 @@ def stats(c, r, m):
     out = ["type=%s" % DT[ip[0]], "m=%d" % len(ip[1]), "ballots=%s" % (len(ip[4]) if len(ip[4]) <= 3 else ">3")]
     if c["tags"].get("gen"):
         out.append("gen=" + c["tags"]["gen"])
+    if 0 in ip[1]:
+        out.append("ids: contain the alternative 0")
+    if any(a >= 10 ** 18 for a in ip[1]):
+        out.append("ids: huge (>= 10**18, incl. 2**64+1)")
+    mx = max([k for _, k in ip[4]] + [0])
+    if mx > 2 ** 53:
+        out.append("multiplicities: some > 2**53" + (" (> 2**63)" if mx > 2 ** 63 else ""))
     if ip[0] in (0, 1):
         d = _depth(ip)
         out.append("quota reached at depth %s" % ("never" if d is None else (d if d <= 3 else ">3")))
         n_vot, n_alt = ip[3], ip[2]
         if n_vot % 2 == 0 and _exact_half_before(ip, d):
             out.append("even n: best count exactly n/2 at a depth before the quota is reached")
+            if n_vot > 2 ** 54:
+                out.append("even n > 2**54: best count exactly n/2 (float quota would be wrong)")
         if ip[0] == 1 and d is not None and d == n_alt and n_alt >= 2 and any(len(o) == n_alt for o, _ in ip[4]):
             out.append("soi: strict majority only at the last depth m (complete ballot's last position)")
         if ip[0] == 1 and len({len(o) for o, _ in ip[4]}) > 1:
